@@ -61,17 +61,6 @@ def countCont : List PI → Nat
   | .cont :: r => 1 + countCont r
   | _ :: r => countCont r
 
-/-- the escape processing of `case AST_STRING` -/
-def unescape : Bytes → Bytes
-  | [] => []
-  | [c] => [c]
-  | c :: d :: r =>
-    if c == 92 then
-      (if d == 110 then 10 else if d == 116 then 9 else if d == 114 then 13 else if d == 97 then 7
-       else if d == 98 then 8 else if d == 102 then 12 else if d == 118 then 11 else if d == 48 then 0
-       else d) :: unescape r
-    else c :: unescape (d :: r)
-
 structure Local where
   name : String
   hidden : Bool := false
